@@ -153,3 +153,112 @@ Theorem defaults_match_oas :
   default_explode Form = true /\ default_explode Simple = false /\
   default_explode Label = false /\ default_explode Matrix = false.
 Proof. repeat split. Qed.
+
+(** * matrix *)
+Lemma strip_prefix_app p s : strip_prefix p (p ++ s) = Some s.
+Proof. induction p as [|a p IH]; simpl; [destruct s; reflexivity|]. rewrite Ascii.eqb_refl. exact IH. Qed.
+
+Lemma semi_ne : semi <> "="%char. Proof. discriminate. Qed.
+
+Lemma join_prefixed {A} (f : A -> string) : forall (l : list A), l <> [] ->
+  join "" (map (fun a => ";" ++ f a) l) = ";" ++ join (sep1 semi) (map f l).
+Proof.
+  induction l as [|x l IH]; intros H; [congruence|]. destruct l as [|y l].
+  - reflexivity.
+  - change (join "" (map (fun a => ";" ++ f a) (x :: y :: l)))
+      with ((";" ++ f x) ++ "" ++ join "" (map (fun a => ";" ++ f a) (y :: l))).
+    rewrite IH by discriminate.
+    change (join (sep1 semi) (map f (x :: y :: l))) with (f x ++ sep1 semi ++ join (sep1 semi) (map f (y :: l))).
+    simpl. reflexivity.
+Qed.
+
+Lemma traverse_strip p l : traverse (strip_prefix p) (map (fun a => p ++ a) l) = Some l.
+Proof. induction l as [|x l IH]; simpl; [reflexivity|]. rewrite strip_prefix_app, IH. reflexivity. Qed.
+
+Lemma strip_name name x : strip_prefix (name ++ "=") (name ++ String "="%char x) = Some x.
+Proof. induction name as [|c n IH]; simpl; [destruct x; reflexivity|]. rewrite Ascii.eqb_refl. exact IH. Qed.
+
+Lemma traverse_strip_name name l :
+  traverse (strip_prefix (name ++ "=")) (map (fun a => name ++ String "="%char a) l) = Some l.
+Proof. induction l as [|x l IH]; simpl; [reflexivity|]. rewrite strip_name, IH. reflexivity. Qed.
+
+Lemma append_assoc_s (a b c : string) : (a ++ b) ++ c = a ++ (b ++ c).
+Proof. induction a as [|x a IH]; simpl; [reflexivity|]. rewrite IH. reflexivity. Qed.
+
+Theorem matrix_roundtrip explode name v :
+  nonempty v -> clean [comma; semi; "="%char] v -> contains semi name = false ->
+  parse_matrix explode name (shape_of v) (ser_matrix explode name v) = Some v.
+Proof.
+  intros Hne Hcl Hname.
+  assert (Hcomma : clean [comma; "="%char] v).
+  { intros a Ha c [<-|[<-|[]]]; apply (Hcl a Ha); simpl; auto. }
+  destruct v as [a|l|l]; destruct explode; cbn [ser_matrix shape_of].
+  - (* primitive *) unfold parse_matrix. cbn [append]. rewrite strip_name. reflexivity.
+  - unfold parse_matrix. cbn [append]. rewrite strip_name. reflexivity.
+  - (* array, exploded *)
+    rewrite (join_prefixed (fun a => name ++ "=" ++ a)) by exact Hne.
+    unfold parse_matrix.
+    change (";" ++ join (sep1 semi) (map (fun a => name ++ "=" ++ a) l))
+      with (String ";"%char (join (sep1 semi) (map (fun a => name ++ String "="%char a) l))).
+    cbv iota.
+    rewrite split_join.
+    + rewrite traverse_strip_name. reflexivity.
+    + destruct l; [simpl in Hne; congruence|discriminate].
+    + intros x Hx. apply in_map_iff in Hx. destruct Hx as [a [<- Ha]].
+      rewrite contains_app, Hname. cbn [orb contains].
+      rewrite (Hcl a Ha semi) by (simpl; auto). reflexivity.
+  - (* array, not exploded *)
+    unfold parse_matrix. cbn [append]. rewrite strip_name.
+    apply (body_roundtrip comma false (VArr l)); [exact comma_ne|exact Hne|exact Hcomma].
+  - (* object, exploded *)
+    rewrite (join_prefixed (kv "=")) by exact Hne.
+    unfold parse_matrix. cbn [append].
+    rewrite split_join.
+    + rewrite traverse_kv; [reflexivity|]. intros p Hp.
+      apply (Hcl (fst p)); [apply in_flat_iff; exists p; auto|simpl; auto].
+    + destruct l; [simpl in Hne; congruence|discriminate].
+    + intros x Hx. apply in_map_iff in Hx. destruct Hx as [[k w] [<- Hp]].
+      rewrite contains_kv.
+      rewrite (Hcl k) by (try (apply in_flat_iff; exists (k, w); auto); simpl; auto).
+      rewrite (Hcl w) by (try (apply in_flat_iff; exists (k, w); auto); simpl; auto).
+      reflexivity.
+  - (* object, not exploded *)
+    unfold parse_matrix. cbn [append]. rewrite strip_name.
+    apply (body_roundtrip comma false (VObj l)); [exact comma_ne|exact Hne|exact Hcomma].
+Qed.
+
+(** * deepObject *)
+Lemma prefix_app a b : String.prefix a (a ++ b) = true.
+Proof.
+  induction a as [|c a IH]; simpl; [destruct b; reflexivity|].
+  destruct (ascii_dec c c); [exact IH|congruence].
+Qed.
+
+Lemma substring_skip : forall a b m, substring (String.length a) m (a ++ b) = substring 0 m b.
+Proof. induction a as [|c a IH]; intros b m; simpl; [reflexivity|apply IH]. Qed.
+
+Lemma substring_all : forall b m, String.length b <= m -> substring 0 m b = b.
+Proof.
+  induction b as [|c b IH]; intros m H.
+  - destruct m; reflexivity.
+  - destruct m; [simpl in H; lia|]. simpl. rewrite IH; [reflexivity|simpl in H; lia].
+Qed.
+
+Lemma length_app_s (a b : string) : String.length (a ++ b) = String.length a + String.length b.
+Proof. induction a as [|c a IH]; simpl; [reflexivity|]. rewrite IH. reflexivity. Qed.
+
+Definition rbracket : ascii := "]".
+
+Theorem deep_object_roundtrip explode name l :
+  (forall p, In p l -> contains rbracket (fst p) = false) ->
+  parse_query DeepObject explode name SObj (ser_query DeepObject explode name (VObj l)) = Some (VObj l).
+Proof.
+  intros Hk. cbn [ser_query parse_query]. f_equal. f_equal.
+  induction l as [|[k w] l IH]; [reflexivity|].
+  cbn [map flat_map fst snd].
+  replace (name ++ "[" ++ k ++ "]") with ((name ++ "[") ++ (k ++ "]")) by apply append_assoc_s.
+  rewrite prefix_app, substring_skip, substring_all by (rewrite !length_app_s; lia).
+  change (k ++ "]") with (kv rbracket (k, "")).
+  rewrite split_once_kv by (apply (Hk (k, w)); left; reflexivity).
+  cbn [app]. f_equal. apply IH. intros p Hp. apply Hk. right. exact Hp.
+Qed.
